@@ -137,7 +137,53 @@ fn run_two(stim: &Value, rec: &Rec) {
     });
 }
 
+/// stim.balance_tls: a load-balanced channel (Channel::balance_list) over two https endpoints on loopback TCP, in real time.  Both servers
+/// present the certificate for good.test; endpoint A expects good.test (valid), endpoint B expects `b_domain` - each endpoint of a
+/// balanced channel is authenticated by its own TLS settings.  Event: {"e":"balance_tls","a_hits","b_hits","ok_calls"}.
+#[derive(Clone)]
+struct Counting { hits: Arc<std::sync::atomic::AtomicU64> }
+#[tonic::async_trait]
+impl Svc for Counting {
+    async fn unary(&self, _r: Request<Vec<u8>>) -> Result<Response<Vec<u8>>, Status> { self.hits.fetch_add(1, std::sync::atomic::Ordering::SeqCst); Ok(Response::new(vec![1])) }
+    async fn cstream(&self, _r: Request<Streaming<Vec<u8>>>) -> Result<Response<Vec<u8>>, Status> { Err(Status::unimplemented("")) }
+    type SStreamStream = BoxStream;
+    async fn sstream(&self, _r: Request<Vec<u8>>) -> Result<Response<BoxStream>, Status> { Err(Status::unimplemented("")) }
+    type BidiStream = BoxStream;
+    async fn bidi(&self, _r: Request<Streaming<Vec<u8>>>) -> Result<Response<BoxStream>, Status> { Err(Status::unimplemented("")) }
+}
+fn run_balance_tls(stim: &Value, rec: &Rec) {
+    let b_domain = stim["b_domain"].as_str().unwrap_or("wrong.test").to_string();
+    let rt = tokio::runtime::Builder::new_multi_thread().worker_threads(2).enable_all().build().unwrap();
+    let log = rec.clone();
+    rt.block_on(async move {
+        let mut hits = vec![]; let mut addrs = vec![]; let mut servers = vec![];
+        for _ in 0..2 {
+            let l = tokio::net::TcpListener::bind("127.0.0.1:0").await.expect("loopback port");
+            addrs.push(l.local_addr().unwrap());
+            let h = Arc::new(std::sync::atomic::AtomicU64::new(0)); hits.push(h.clone());
+            let cfg = ServerTlsConfig::new().identity(Identity::from_pem(pem("server.pem"), pem("server.key")));
+            servers.push(tokio::spawn(async move {
+                let _ = tonic::transport::Server::builder().tls_config(cfg).expect("tls").add_service(SvcServer::new(Counting { hits: h }))
+                    .serve_with_incoming(tokio_stream::wrappers::TcpListenerStream::new(l)).await;
+            }));
+        }
+        let ep = |addr: std::net::SocketAddr, domain: &str| tonic::transport::Endpoint::from_shared(format!("https://{addr}")).unwrap()
+            .tls_config(ClientTlsConfig::new().ca_certificate(Certificate::from_pem(pem("ca_a.pem"))).domain_name(domain)).expect("client tls")
+            .connect_timeout(Duration::from_secs(3));
+        let ch = tonic::transport::Channel::balance_list(vec![ep(addrs[0], "good.test"), ep(addrs[1], &b_domain)].into_iter());
+        let mut cl = SvcClient::new(ch);
+        let mut ok = 0u64;
+        for _ in 0..30 {
+            if let Ok(Ok(_)) = tokio::time::timeout(Duration::from_secs(5), cl.unary(Request::new(vec![7]))).await { ok += 1; }
+            tokio::time::sleep(Duration::from_millis(5)).await;
+        }
+        log.ev(json!({"e":"balance_tls","a_hits":hits[0].load(std::sync::atomic::Ordering::SeqCst),"b_hits":hits[1].load(std::sync::atomic::Ordering::SeqCst),"ok_calls":ok}));
+        for s in servers { s.abort(); }
+    });
+}
+
 pub fn run(stim: &Value, rec: &Rec) {
+    if stim["balance_tls"].as_bool().unwrap_or(false) { return run_balance_tls(stim, rec); }
     if stim["second_alpn"].is_string() { return run_two(stim, rec); }
     let log = rec.clone();
     let stim = stim.clone();
